@@ -16,7 +16,7 @@ CONSTANTS MaxPath,      \* maximal number of atoms in a request path
 Vocab == [ atoms |-> [ sl |-> "/", a |-> "api", b |-> "docs", q |-> "?", eq |-> "=", x |-> "xyz", amp |-> "&", h |-> "#" ] ]
 
 PathAtoms == {"sl", "a", "b"}
-Methods   == {"GET", "POST", "OPTIONS", "get"}
+Methods   == {"GET", "POST", "OPTIONS", "get", "HEAD", "PUT", "DELETE"}
 
 \* normalised paths: start with '/', no empty segment (the router would redirect those)
 ValidPath(p) == /\ Len(p) >= 1 /\ p[1] = "sl"
@@ -85,6 +85,8 @@ Vias == {"target", "xfu", "decoy"}
 Mk(m, p, q, f, rs, pf, v) == [method |-> m, path |-> p, query |-> q, frag |-> f, rules |-> rs, preflight |-> pf, via |-> v]
 
 InScope(c) == /\ (c.frag # <<>> => c.via = "xfu")            \* a fragment cannot travel in a request target
+              \* the further methods only matter for the method comparison: plain request targets
+              /\ (c.method \in {"HEAD", "PUT", "DELETE"} => c.query = <<>> /\ c.via = "target" /\ ~c.preflight /\ (Tier = "quick" => Len(c.rules) = 1))
               /\ (c.preflight => Len(c.rules) <= 1)           \* keep the product small: preflight x pairs adds nothing
               /\ (Tier = "quick" => (c.via # "target" => Len(c.rules) = 1 /\ c.rules[1].m \in {"", "GET"} /\ c.method \in {"GET", "POST"}))
               /\ (Tier = "quick" /\ Len(c.rules) = 2 => c.query \in {<<>>, <<"q","x","eq","sl","a">>})
